@@ -157,3 +157,23 @@ pub open spec fn pc_create_dir_exact(pre: Tree, p: Seq<char>, r: VfsResult<()>) 
         &&& (is_dir_at(pre, p) ==> r is Err && ekind(r->Err_0) is DirectoryExists)
     }
 }
+
+// ---------------- optional same-filesystem fast paths (FileSystem::copy_file / move_file / move_dir)
+pub open spec fn node_same_mod_accessed(a: Node, b: Node) -> bool { a.is_dir == b.is_dir && a.bytes == b.bytes && a.created == b.created && a.modified == b.modified }
+/// every entry other than d: present iff it was, same up to access times
+pub open spec fn changed_only_at(t1: Tree, t2: Tree, d: Seq<char>) -> bool {
+    forall|q: Seq<char>| q != d ==> (#[trigger] t2.contains_key(q) == t1.contains_key(q)) && (t1.contains_key(q) ==> node_same_mod_accessed(t1[q], t2[q]))
+}
+pub open spec fn tc_copy_file(pre: Tree, src: Seq<char>, dest: Seq<char>, r: VfsResult<()>, post: Tree) -> bool {
+    &&& changed_only_at(pre, post, dest)
+    &&& (r is Ok ==> is_file_at(pre, src) && is_file_at(post, dest) && post[dest].bytes == pre[src].bytes)
+    &&& (r is Err && ekind(r->Err_0) is NotSupported ==> post =~= pre)
+}
+pub open spec fn changed_only_at2(t1: Tree, t2: Tree, a: Seq<char>, b: Seq<char>) -> bool {
+    forall|q: Seq<char>| q != a && q != b ==> (#[trigger] t2.contains_key(q) == t1.contains_key(q)) && (t1.contains_key(q) ==> node_same_mod_accessed(t1[q], t2[q]))
+}
+pub open spec fn tc_move_file(pre: Tree, src: Seq<char>, dest: Seq<char>, r: VfsResult<()>, post: Tree) -> bool {
+    &&& changed_only_at2(pre, post, src, dest)
+    &&& (r is Ok ==> is_file_at(pre, src) && is_file_at(post, dest) && post[dest].bytes == pre[src].bytes && (src != dest ==> !post.contains_key(src)))
+    &&& (r is Err && ekind(r->Err_0) is NotSupported ==> post =~= pre)
+}
